@@ -651,13 +651,21 @@ func (s *session) apply(o op) (okRun bool) {
 	case "tamper":
 		s.tr8.Emit(s.tamper(o.k, o.other))
 	case "find":
-		if s.dirty {
+		// every other range search on a trie with unflushed changes goes to the LIVE trie (what follows in the history -
+		// reads, dumps, further changes, the flush - shows whether the search left it intact); the others, as
+		// stateroot.Module does, to a fresh Trie over the flushed store
+		live := s.dirty && len(s.done)%2 == 0
+		if s.dirty && !live {
 			s.emitFlush()
 		}
 		if len(o.prefix) > mpt.MaxKeyLength || len(o.from) > mpt.MaxKeyLength-len(o.prefix) {
 			return true
 		}
-		r, err := s.copyTrie().Find(o.prefix, o.from, o.max)
+		ft := s.tr
+		if !live {
+			ft = s.copyTrie()
+		}
+		r, err := ft.Find(o.prefix, o.from, o.max)
 		if err != nil {
 			r = nil
 		}
@@ -668,6 +676,12 @@ func (s *session) apply(o op) (okRun bool) {
 		s.tr8.Emit(map[string]any{"event": "find", "prefix": nibbles(o.prefix), "from": nibbles(fr), "hasfrom": o.from != nil,
 			"max": o.max, "res": kvList(r, 0), "err": err != nil})
 		s.res.Count([]any{"find", hx(o.prefix), hx(o.from), o.from != nil, o.max, len(r)})
+		if live {
+			// the model's range search leaves the trie flushed (as the other half of the searches does before searching):
+			// here the flush comes AFTER the search on the live trie and stores whatever the search left of it
+			s.emitFlush()
+			s.res.Inc("finds_on_live_unflushed_trie", 1)
+		}
 	case "seek":
 		if s.dirty {
 			s.emitFlush()
@@ -1024,10 +1038,9 @@ func deepHistory(r *rand.Rand) ([][]byte, []op) {
 	return u, ops
 }
 
-// probeFindLive documents a corner that is left out of the verdict (DESIGN 2.2, drift): Trie.Find is judged on
-// store-rooted tries over a flushed store, which is how stateroot.Module uses it. Called on a live trie with
-// unflushed changes it answers correctly, but the Billet traversal it is built on replaces the visited in-memory
-// nodes by "collapsed" hash nodes that were never written to the store.
+// probeFindLive is the minimal form of a defect found here and repaired (8f9234f): Trie.Find called on a live trie with
+// unflushed changes answered correctly, but the Billet traversal it is built on replaced the visited in-memory nodes by
+// "collapsed" hash nodes that were never written to the store. Kept as a regression; the histories search live tries too.
 func probeFindLive(res *vh.Result) {
 	defer func() { _ = recover() }()
 	tr := mpt.NewTrie(nil, mpt.ModeAll, storage.NewMemCachedStore(storage.NewMemoryStore()))
@@ -1036,9 +1049,10 @@ func probeFindLive(res *vh.Result) {
 	r, err := tr.Find([]byte{0xAA}, nil, 10)
 	_, gerr := tr.Get([]byte{0xAA, 0x01})
 	if err == nil && len(r) == 2 && gerr != nil {
-		res.AddDrift(map[string]any{"what": "Trie.Find on a live trie with unflushed changes answers correctly but leaves collapsed hash " +
-			"nodes that are not in the store: the next Get/Put on the same Trie fails (" + gerr.Error() + "); not judged, Find is " +
-			"exercised on flushed store-rooted tries only", "repro": "Put(aa01,v) Put(aa02,w) Find(aa,nil,10) Get(aa01)"})
+		// repaired by 8f9234f ("fix: mpt: Find doesn't collapse nodes of the trie it's called on"); judged since
+		res.Violate(map[string]any{"kind": "ReadsEqualContent", "op": "find-then-get", "mode": "all"},
+			"Trie.Find on a live trie with unflushed changes leaves collapsed hash nodes that are not in the store: the next Get on the "+
+				"same Trie fails ("+gerr.Error()+")", map[string]any{"repro": "Put(aa01,v) Put(aa02,w) Find(aa,nil,10) Get(aa01)"})
 	}
 }
 
